@@ -154,7 +154,9 @@ Step(S, ev, fix) ==
          IF S.bd = <<>> THEN Rej(S)                                   \* LoadMIDI_pre: "Bank is not set!"
          ELSE IF CrashChips(S.nc) /\ S.emu # Dumper THEN Crash(S)
          ELSE LET S1 == ApplySetup(S, fix) IN                         \* LoadMIDI_pre: ends the lock, applies the stored requests
-              IF ev.bad # 0                                           \* the parser rejects; the previous song stays
+              IF ev.bad = 5       \* a well-formed CMF song: parsed (one track, per-song options reset), then refused by LoadMIDI_post (F40)
+              THEN Rej([S1 EXCEPT !.nt = 1, !.td = <<0>>, !.cd = 0, !.solo = -1])
+              ELSE IF ev.bad # 0                                      \* the parser rejects; the previous song stays
               THEN (IF Locked(S) /\ "rsxxlock" \in fix
                     THEN Rej(SynthReset([S1 EXCEPT !.mm = S.mm, !.vs = S.vs, !.nco = S.nco, !.pcmS = S.pcmS], S1.gct, FALSE, fix))
                     ELSE Rej(S1))
